@@ -16,7 +16,8 @@ import (
 func init() { register(&Check{ID: "C06", Run: runC06, ShardDepth: 3}) }
 
 var (
-	c06RespCC = []string{"", "max-age=60", "no-store", "no-store, max-age=60", "public", "must-understand, max-age=60", "private", "private, max-age=60"}
+	c06RespCC = []string{"", "max-age=60", "no-store", "no-store, max-age=60", "public", "must-understand, max-age=60", "private", "private, max-age=60",
+		`max-age=60, x-root="C:\\", no-store`, `x-q="a\", max-age=60", no-store, max-age=60`}
 	c06Reqs   = []string{"GET", "GET+no-store", "GET+Range", "GET+Range(items)", "GET+Range(Bytes)", "GET+If-None-Match", "GET+If-Modified-Since", "HEAD", "POST", "GET(empty Method)+Range"}
 )
 
